@@ -701,3 +701,50 @@ func init() {
 		return Slice{o: e.newObj("makenozero"), v: v, ok: true}
 	}
 }
+
+// ---- environment: nondeterministic stubs + environment monitor ----
+func (e *Exec) envEvent(what string) {
+	if e.epoch >= 2 {
+		e.envAccess[what+" @"+shortSite(e.curPos())]++
+	}
+	e.modelsUsed[what+" (environment stub)"]++
+}
+
+func init() {
+	notFound := func(e *Exec, name string) Value { return e.mkError(name + ": no such file or directory (no file system exists inside the engine)") }
+	intrinsics["os.ReadFile"] = func(e *Exec, a []Value) Value {
+		e.envEvent("os.ReadFile")
+		return Tuple{Slice{}, notFound(e, "open")}
+	}
+	intrinsics["os.Open"] = func(e *Exec, a []Value) Value {
+		e.envEvent("os.Open")
+		return Tuple{Ptr{}, notFound(e, "open")}
+	}
+	intrinsics["os.Stat"] = func(e *Exec, a []Value) Value {
+		e.envEvent("os.Stat")
+		return Tuple{Iface{}, notFound(e, "stat")}
+	}
+	intrinsics["os.Getwd"] = func(e *Exec, a []Value) Value {
+		e.envEvent("os.Getwd")
+		return Tuple{Str{s: "/verif-nowhere"}, Iface{}}
+	}
+	intrinsics["math/rand.Intn"] = func(e *Exec, a []Value) Value {
+		e.envEvent("math/rand.Intn")
+		n := a[0].(*Term)
+		v := e.freshEnvVar(64)
+		e.assume(Bin(OUlt, v, n))
+		return v
+	}
+	intrinsics["math/rand.Int"] = func(e *Exec, a []Value) Value {
+		e.envEvent("math/rand.Int")
+		v := e.freshEnvVar(64)
+		return Bin(OBAnd, v, Const(64, 1<<63-1))
+	}
+}
+
+// freshEnvVar: a nondeterministic environment value (not part of the harness's input vector).
+func (e *Exec) freshEnvVar(w uint8) *Term {
+	t := mk(Term{Op: OVar, W: w, Name: fmt.Sprintf("env%d", e.nvars)})
+	e.nvars++
+	return t
+}
